@@ -77,3 +77,9 @@ long arg_oom(const vcase *c);
 typedef struct { uint8_t *map; size_t maplen; uint8_t *p; size_t len; } gpage;
 gpage gpage_new(const uint8_t *src, size_t len);
 void gpage_free(gpage *g);
+
+/* --threads mode: index of the calling driver thread and the number of threads
+ * (0 / 1 when sequential).  A handler may use them to vary the ORDER in which
+ * it does its work, never what it prints. */
+extern __thread int vdrv_tid;
+extern int vdrv_nthreads;
